@@ -192,3 +192,42 @@ Proof.
       * reflexivity.
     + rewrite Hu. fold (key_ops k ops). rewrite (IH _ Hops). now rewrite spec_step_untouched.
 Qed.
+
+(** ** concurrent Removes of one key: exactly the first succeeds *)
+
+Definition remove_or_other (k : key) (o : bop) : Prop :=
+  o = BRemove k \/ changes_key k o = false.
+
+Lemma seq_remove_missing k ops : forall s,
+  Forall (remove_or_other k) ops -> @lookup entry k s = None ->
+  lookup k (fst (run spec_step s ops)) = None /\
+  key_results k ops (snd (run spec_step s ops)) = repeat (RErr ENotFound) (length (key_ops k ops)).
+Proof.
+  induction ops as [|o ops IH]; intros s Hall Hl.
+  - cbn. auto.
+  - inversion Hall as [|? ? Ho Hops]; subst. rewrite run_cons. cbn [fst snd key_results key_ops filter].
+    destruct Ho as [->|Hu].
+    + cbn [changes_key]. rewrite keqb_refl. cbn [length repeat spec_step]. rewrite Hl. cbn [fst snd].
+      destruct (IH s Hops Hl) as [H1 H2]. fold (key_ops k ops). now rewrite H1, H2.
+    + rewrite Hu. fold (key_ops k ops). apply IH; [exact Hops|]. now rewrite spec_step_untouched.
+Qed.
+
+Lemma seq_remove_once k ops : forall s e,
+  Forall (remove_or_other k) ops -> @lookup entry k s = Some e ->
+  match key_ops k ops with
+  | [] => lookup k (fst (run spec_step s ops)) = Some e
+  | _ :: rest =>
+      lookup k (fst (run spec_step s ops)) = None /\
+      key_results k ops (snd (run spec_step s ops)) = RUnit :: repeat (RErr ENotFound) (length rest)
+  end.
+Proof.
+  induction ops as [|o ops IH]; intros s e Hall Hl.
+  - cbn. exact Hl.
+  - inversion Hall as [|? ? Ho Hops]; subst. rewrite run_cons. cbn [fst snd key_results key_ops filter].
+    destruct Ho as [->|Hu].
+    + cbn [changes_key]. rewrite keqb_refl. cbn [spec_step]. rewrite Hl. cbn [fst snd].
+      destruct (seq_remove_missing k ops (del k s) Hops) as [H1 H2].
+      { rewrite lookup_del. now rewrite keqb_refl. }
+      fold (key_ops k ops). now rewrite H1, H2.
+    + rewrite Hu. fold (key_ops k ops). apply IH; [exact Hops|]. now rewrite spec_step_untouched.
+Qed.
